@@ -664,10 +664,11 @@ def expected_follower(spec, leader0, follower0, leader_now) -> Optional[np.ndarr
     l0, f0, ln = (np.asarray(x, float) for x in (leader0, follower0, leader_now))
     if spec["type"] == "translation":
         return ln + (f0 - l0)
+    o = np.asarray(spec.get("origin", np.zeros(3)), float)  # work relative to the link's origin: models may sit far away
     if spec["type"] == "symmetry":
-        return apply(m_mirror(spec["normal"], spec["origin"]), ln)
+        return o + apply(m_mirror(spec["normal"], np.zeros(3)), ln - o)
     phi, r0, r1 = azimuth_change(spec["axis"], spec["origin"], l0, ln)
     if r1 < 1e-3 * r0:
         return None  # leader on the axis: the angle it turned is not defined
     # at half a turn the sense is irrelevant (+pi and -pi are the same rotation); next to it the azimuth still defines it
-    return apply(m_rotate(phi, spec["axis"], spec["origin"]), f0)
+    return o + apply(m_rotate(phi, spec["axis"], np.zeros(3)), f0 - o)
